@@ -25,6 +25,7 @@ mod mon_c10;
 mod mon_c11;
 mod mon_c12;
 mod mon_c13;
+mod mon_c14;
 mod mon_c16;
 mod mon_c17;
 mod mon_c16_core;
@@ -163,6 +164,7 @@ fn main() {
         "C11" => mon_c11::run(&mut ctx),
         "C12" => mon_c12::run(&mut ctx),
         "C13" => mon_c13::run(&mut ctx),
+        "C14" => mon_c14::run(&mut ctx),
         "C16" => mon_c16::run(&mut ctx),
         "C17" => mon_c17::run(&mut ctx),
         _ => {
